@@ -96,3 +96,18 @@ pub uninterp spec fn number_i64(n: &serde_yaml::Number) -> Option<i64>;
 pub uninterp spec fn number_f64(n: &serde_yaml::Number) -> Option<f64>;
 pub assume_specification[ serde_yaml::Number::as_i64 ](n: &serde_yaml::Number) -> (r: Option<i64>) ensures r == number_i64(n);
 pub assume_specification[ serde_yaml::Number::as_f64 ](n: &serde_yaml::Number) -> (r: Option<f64>) ensures r == number_f64(n);
+
+// RegexBuilder, call by call (as in prelude/identspecs.rs): which pattern text and flag reach build()
+#[verifier::external_type_specification]
+#[verifier::external_body]
+pub struct ExRegexBuilder(RegexBuilder);
+pub uninterp spec fn rb_pattern(b: RegexBuilder) -> Seq<char>;
+pub uninterp spec fn rb_ci(b: RegexBuilder) -> bool;
+pub assume_specification[ RegexBuilder::new ](p: &str) -> (b: RegexBuilder)
+    ensures rb_pattern(b) == p@, rb_ci(b) == false;
+pub assume_specification<'a>[ RegexBuilder::case_insensitive ](b: &'a mut RegexBuilder, yes: bool) -> (r: &'a mut RegexBuilder)
+    ensures rb_pattern(*final(b)) == rb_pattern(*old(b)), rb_ci(*final(b)) == yes, *r == *final(b);
+pub assume_specification[ RegexBuilder::build ](b: &RegexBuilder) -> (r: std::result::Result<Regex, regex::Error>)
+    ensures match r { Ok(re) => regex_of(rb_pattern(*b), rb_ci(*b)) == Some(re), Err(_) => regex_of(rb_pattern(*b), rb_ci(*b)) is None };
+pub broadcast axiom fn axiom_pattern_texts_vec_ref(v: &Vec<String>)
+    ensures #[trigger] pattern_texts::<&Vec<String>>(v) == texts(v@);
